@@ -359,7 +359,7 @@ def check_traceback(case, ev=None):
 
 
 # ---- warnings --------------------------------------------------------------
-WARNERS = ["expr-escape", "block-escape", "module-escape", "is-literal", "module-warn"]
+WARNERS = ["expr-escape", "block-escape", "module-escape", "is-literal", "module-warn", "expr-literal", "block-literal"]
 
 
 def warner(kind, k, tag):
@@ -370,6 +370,10 @@ def warner(kind, k, tag):
         return "<%\n" + "    z = 1\n" * k + '    x = "\\%s"\n%%>\n' % tag, 1 + k, r"invalid escape sequence"
     if kind == "module-escape":
         return "<%!\n" + "    z = 1\n" * k + '    x = "\\%s"\n%%>\n' % tag, 1 + k, r"invalid escape sequence"
+    if kind == "expr-literal":  # (a parser warning that is not about escapes)
+        return "a ${1if cs else 2} b\n", 0, r"invalid decimal literal"
+    if kind == "block-literal":
+        return "<%\n" + "    z = 1\n" * k + "    x = [0x1for q in (1,)]\n%>\n", 1 + k, r"invalid hexadecimal literal"
     if kind == "is-literal":
         return "% if cs is 1:\nx\n% endif\n", 0, r'"is" with'
     if kind == "module-warn":
